@@ -83,6 +83,9 @@ def assemble(g: Dict[str, Any], parts: List[Part], rule: str = "", explanation: 
                 else:
                     q["leg"] = rest
                 return p.replay(ctx, q)
+        # untagged payloads (corpus files written before the module was assembled from parts) go to the first part
+        if "|" not in (kind or leg) and parts and parts[0].replay is not None:
+            return parts[0].replay(ctx, payload)
         return True, "no part handles this payload"
 
     g.update(THEOREMS=theorems, LEAN_MODULES=modules, KNOWN=known, RULE=rule, EXPLANATION=explanation,
@@ -95,11 +98,25 @@ def _or_clf(a, b):
 
 def _route_clf(tag, clf):
     def f(fl: Failure) -> bool:
+        if "|" not in fl.kind:
+            return bool(clf(fl))  # untagged (corpus witness of an older format)
         t, _, rest = fl.kind.partition("|")
         if t != tag:
             return False
         return clf(Failure(rest, fl.inp, fl.what))
     return f
+
+
+def extend(g: Dict[str, Any], extra_parts: List[Part]):
+    """Turn a self-contained check module (own THEOREMS / run / replay / KNOWN) into an assembled one with
+    additional (typically theorem-only) parts."""
+    main = Part("main", g["run"], g.get("replay"), theorems=g.get("THEOREMS", []), modules=g.get("LEAN_MODULES", []),
+                known=g.get("KNOWN"))
+    assemble(g, [main] + list(extra_parts), g.get("RULE", ""), g.get("EXPLANATION", ""), g.get("ASSUMPTIONS", []))
+
+
+def theorem_part(name: str, theorems, modules) -> Part:
+    return Part(name, lambda ctx: None, None, theorems=theorems, modules=modules)
 
 
 def ko_part(name: str, gen, check, nq: int, nt: int, known=None) -> Part:
